@@ -1,3 +1,4 @@
 import MpfVerif.DriverLoop
-/-! Driver of the C06 model (stub until the model exists): answers bad-op to everything. -/
-def main : IO UInt32 := MpfVerif.runDriver (fun (s : Unit) _ => (s, "bad-op")) ()
+import MpfVerif.Model.Game
+/-! Driver of the C06 model (the game coroutine as a resumable state machine). -/
+def main : IO UInt32 := MpfVerif.runDriver MpfVerif.Game.driverStep ({} : MpfVerif.Game.St)
